@@ -1163,7 +1163,7 @@ pub struct ExploreCfg {
 /// transitions of the persistent backend that write a range far from offset 0 at depth 20 need gigabytes
 /// (pmtree loads every node to the left of the range): such plans run few workers at a time
 fn max_parallel_for(cfg: &ExploreCfg) -> usize {
-    if cfg.depth >= 16 && cfg.ops.iter().any(|o| matches!(o, TreeOp::Range(s, _) | TreeOp::Batch(s, _, _) if *s > 4096 && *s < (1u64 << 20))) { 3 } else { usize::MAX }
+    if cfg.depth >= 18 && cfg.ops.iter().any(|o| matches!(o, TreeOp::Range(s, _) | TreeOp::Batch(s, _, _) if *s > 4096 && *s < (1u64 << 20))) { 3 } else { usize::MAX }
 }
 
 #[derive(Default, Clone)]
@@ -1787,7 +1787,7 @@ impl TreeProp {
             let d = 16usize;
             let c = 1u64 << d;
             let pat = |n: u64| -> Vec<u8> { (0..n).map(|k| if k % 2 == 0 { 1 } else { 2 }).collect() };
-            let lens: Vec<u64> = if q { vec![17, 257, 4097, 16385] } else { (4..=15).flat_map(|k| [1u64 << k, (1u64 << k) + 1]).chain([c]).collect() };
+            let lens: Vec<u64> = if q { vec![17, 255, 256, 257, 4097, 16385] } else { (4..=15).flat_map(|k| [(1u64 << k) - 1, 1u64 << k, (1u64 << k) + 1]).chain([c]).collect() };
             let mut ops = vec![TreeOp::Set(40000, 1), TreeOp::Append(2)];
             if with_plain {
                 ops.push(TreeOp::Range(0, pat(8)));
@@ -1835,6 +1835,37 @@ impl TreeProp {
                 focus: f, depth: d, ops,
                 backends: vec![(Kind::Full, 3), (Kind::Optimal, 3), (Kind::Pm, 3), (Kind::Rln, if q { 1 } else { 2 })],
                 nodedup_len: 1, max_len: 3, positions: pos, full_obs: false, allow: Some(one_long), label: "depth16.one-long-operation".into(),
+            });
+        }
+        // depth 17: range / batch writes of 65 535, 65 536 and 65 537 leaves (counts around the 16-bit boundary), alone,
+        // after a write that puts the leaf count above them, and followed by an append (quick tier: C06 only)
+        if !q || f == Focus::C06 {
+            let d = 17usize;
+            let c = 1u64 << d;
+            let pat = |n: u64| -> Vec<u8> { (0..n).map(|k| if k % 2 == 0 { 1 } else { 2 }).collect() };
+            let mut ops = vec![TreeOp::Set(100_000, 1), TreeOp::Append(2)];
+            let mut pos: Vec<u64> = vec![0, 1, 2, 100_000, 100_001, c - 1];
+            for l in [65_535u64, 65_536, 65_537] {
+                if with_plain {
+                    ops.push(TreeOp::Range(0, pat(l)));
+                } else {
+                    ops.push(TreeOp::Batch(0, pat(l), vec![]));
+                }
+                pos.extend([l - 2, l - 1, l, l + 1]);
+            }
+            pos.sort();
+            pos.dedup();
+            fn long17(o: &TreeOp) -> bool {
+                matches!(o, TreeOp::Range(_, v) | TreeOp::Batch(_, v, _) if v.len() > 8)
+            }
+            fn one_long17(hist: &[TreeOp], op: &TreeOp) -> bool {
+                let had = hist.iter().any(long17);
+                if long17(op) { !had && hist.len() <= 1 } else { hist.is_empty() || had }
+            }
+            plans.push(ExploreCfg {
+                focus: f, depth: d, ops,
+                backends: vec![(Kind::Full, 2), (Kind::Optimal, 2), (Kind::Pm, 2), (Kind::Rln, if q { 1 } else { 2 })],
+                nodedup_len: 1, max_len: 2, positions: pos, full_obs: false, allow: Some(one_long17), label: "depth17.sixteen-bit-counts".into(),
             });
         }
         // depth 20: position alphabet, sparse observation
